@@ -367,7 +367,8 @@ def describe_diff(fmt, got, exp, v4):
 
 def words_for(sfmt, dfmt, encs):
     bracket_src = sfmt in ("brackets", "discobrackets")
-    base = ["a", "b", "Haus", "x1", ",", ".", "&", "<tag>", "\"q\"", "it's", "ABCDEFG", "ABCDEFGH", "ABCDEFGHIJKLMNOP"]
+    base = ["a", "b", "Haus", "x1", ",", ".", "&", "<tag>", "\"q\"", "it's", "ABCDEFG", "ABCDEFGH", "ABCDEFGHIJKLMNOP",
+            "ABCDEFGHIJKLMNOPQRSTUVW", "ABCDEFGHIJKLMNOPQRSTUVWX", "Donaudampfschifffahrtsgesellschaftskapitän"[:33]]     # 23, 24, 33 characters
     if all(e != "latin-1" for e in encs):
         base += ["λ", "中", "\U0001F600"]
     base += ["ä", "Über", "é", "#1", "#42", "#1234"]      # only '#' + exactly three digits is a node reference in export
@@ -386,9 +387,9 @@ def conv_case(draw, max_tokens, max_sents, sub_fraction, srcs=SRC, dests=DEST):
     denc = draw(st.sampled_from(["utf-8", "utf-8", "latin-1", "utf-16"]))
     skip = dfmt == "brackets" and sfmt != "brackets" and draw(st.integers(0, 2)) == 0
     disc = 0.5 if skip else (0.0 if "brackets" in (sfmt, dfmt) else 0.5)
-    tree = S.tree_model(max_tokens=max_tokens, disc=disc, words=words_for(sfmt, dfmt, [senc, denc]), lemmas=st.sampled_from(["--", "haus", "sein", "ä"]),
+    tree = S.tree_model(max_tokens=max_tokens, disc=disc, words=words_for(sfmt, dfmt, [senc, denc]), lemmas=st.sampled_from(["--", "haus", "sein", "ä", "abcdefghijklmnopqrstuvwxyz"]),
                         labels=st.sampled_from(["S", "NP", "VP", "X"]), pos=st.sampled_from(["NN", "VVFIN", "ART", "$,", "$."]),
-                        edges=st.sampled_from(["HD", "SB", "--", "OA"]), morphs=st.sampled_from(["--", "Nom.Sg", "3.Sg"]), fields="full")
+                        edges=st.sampled_from(["HD", "SB", "--", "OA"]), morphs=st.sampled_from(["--", "Nom.Sg", "3.Sg", "Comp.Nom.Sg.Masc", "Pos.Nom.Sg.Masc.X"]), fields="full")
     trees = draw(S.corpus(tree, 1, max_sents, max_start=draw(st.sampled_from([5, 50, 5000, 99000]))))
     dopts = []
     if dfmt == "export" and draw(st.booleans()):
